@@ -1,6 +1,7 @@
 import Orx.IW.Outs
 import Orx.IW.Completed
 import Orx.IW.Progress
+import Orx.KSLedger
 /-! # C18 Panic containment: a panicking pull does not hang or corrupt others -/
 namespace Orx.Props.C18
 open Orx Orx.IW
@@ -66,5 +67,22 @@ theorem C18_fixed_witness_no_hang :
     let c := run panicAt1 [0,0,0,0,0,0,0,0, 0,0,0,0,0,0,0,0, 1,1,1, 1,1,1] (init twoNext)
     (c.th 0).pc = .dead 1 1 ∧ c.C = true ∧ (c.th 1).pc = .idle ∧ (c.th 1).todo = [] ∧
     (c.th 1).outs = [.fin, .fin] := by decide
+
+/-- **A panicking closure and the ownership ledger (vec, array).** The programs of `KS.exactly_once_all_schedules`
+may contain `for_each`/`enumerate_for_each` loops whose closure panics at any invocation `k` (`Op.foreach n (some k)`):
+the panicking thread's chunk rest is destroyed by the unwinding chunk iterator, the other threads go on, and after
+the owner's `Drop`/`into_seq_iter` every element has still been moved out or destroyed exactly once. -/
+theorem closure_panic_exactly_once (s : KSrc) (hown : s.owning = true) (progs : Nat → List SOp)
+    (hp : ∀ t, ∀ o ∈ progs t, KS.OwnProg o) (σ : List Nat) (op : OwnerOp) (p : Nat)
+    (hw : KS.NoWrap s.len (KS.atomsOf (KS.run s σ (KS.init s progs)).hist 0) 0) :
+    ((KS.owner s (KS.run s σ (KS.init s progs)) op).1.mv ++ (KS.owner s (KS.run s σ (KS.init s progs)) op).1.dr).count p
+      = if p < s.len then 1 else 0 :=
+  KS.exactly_once_all_schedules s hown progs hp σ op p hw
+
+/-- the panicking step itself: a closure panic at invocation `k` of a chunk kills the thread (`dead`), and the
+positions it adds to moved-out/destroyed are exactly the chunk it pulled -/
+example : let s : KSrc := { kind := .vec, vals := [7, 8, 9, 10] }
+    let c := KS.run s [0, 0] (KS.init s fun t => if t = 0 then [⟨0, .foreach 3 (some 1)⟩] else [])
+    (c.th 0).pc = .dead ∧ c.mv = [0, 1] ∧ c.dr = [2] := by decide
 
 end Orx.Props.C18
